@@ -147,21 +147,42 @@ func c18(c *core.Ctx, r *core.Report) {
 				found++
 				key := core.FuncName(f.loop) + "#Done-arm"
 				pos := c.Pos(st.Pos)
-				// the context must be the one whose cancel func is stored in the field Stop calls
-				ctxDesc := an.D().Of(call.Common().Value)
-				okCtx := strings.Contains(ctxDesc, "context.WithCancel(") && strings.HasSuffix(ctxDesc, "#0")
-				if okCtx {
-					okCtx = false
-					par := f.loop.Parent()
-					if par != nil {
-						an.Instrs(par, func(in ssa.Instruction) {
+				// the context must be the one whose cancel func is stored in the field Stop calls: follow the value
+				// out of the goroutine (captured variable or argument of the go statement) to its WithCancel call
+				ctxV := an.Strip(call.Common().Value)
+				for i := 0; i < 4; i++ {
+					switch x := ctxV.(type) {
+					case *ssa.FreeVar:
+						if al, ok := an.FreeVarBinding(x).(*ssa.Alloc); ok {
+							if sts := an.StoresTo(al); len(sts) == 1 {
+								ctxV = an.Strip(sts[0].Val)
+								continue
+							}
+						} else if b := an.FreeVarBinding(x); b != nil {
+							ctxV = an.Strip(b)
+							continue
+						}
+					case *ssa.Parameter:
+						if gos := an.GoTargetOf(c.AllFuncs, x.Parent()); len(gos) == 1 {
+							if idx := an.ParamIndex(x); idx >= 0 && idx < len(gos[0].Call.Args) {
+								ctxV = an.Strip(gos[0].Call.Args[idx])
+								continue
+							}
+						}
+					}
+					break
+				}
+				ctxDesc := an.D().Of(ctxV)
+				okCtx := false
+				if ex, ok := ctxV.(*ssa.Extract); ok && ex.Index == 0 {
+					if wc, ok := ex.Tuple.(*ssa.Call); ok && an.IsFunc(an.Callee(wc), "context", "WithCancel") {
+						an.Instrs(wc.Parent(), func(in ssa.Instruction) {
 							st, ok := in.(*ssa.Store)
 							if !ok {
 								return
 							}
 							if fld := an.FieldOfAddr(st.Addr); an.SameField(fld, f.cancelFld) {
-								d := an.D().Of(st.Val)
-								if strings.HasSuffix(d, "#1") && "^"+strings.TrimSuffix(d, "#1")+"#0" == ctxDesc {
+								if e1, ok := an.Strip(st.Val).(*ssa.Extract); ok && e1.Index == 1 && e1.Tuple == ex.Tuple {
 									okCtx = true
 								}
 							}
@@ -297,6 +318,16 @@ func c18(c *core.Ctx, r *core.Report) {
 		r.Check(ok, key, an.Pos(c, tick), "ticker period is "+d+" of the schedule selected by parameter "+idxParam.Name(), "ticker period is not the selected schedule's Frequency: "+why)
 
 		// arms
+		// the field holding the current index: the one the selector stores its parameter into
+		var curFld *types.Var
+		an.Instrs(startFn, func(in ssa.Instruction) {
+			if st, ok := in.(*ssa.Store); ok && an.Strip(st.Val) == ssa.Value(idxParam) {
+				if fld := an.FieldOfAddr(st.Addr); fld != nil {
+					curFld = fld
+				}
+			}
+		})
+		var argVal ssa.Value
 		argTo := func(arm *ssa.BasicBlock) (string, bool) {
 			for _, in := range arm.Instrs {
 				ci, ok := in.(ssa.CallInstruction)
@@ -308,10 +339,12 @@ func c18(c *core.Ctx, r *core.Report) {
 					continue
 				}
 				if t == startFn {
-					return an.D().Of(ci.Common().Args[len(ci.Common().Args)-1]), true
+					argVal = ci.Common().Args[len(ci.Common().Args)-1]
+					return an.D().Of(argVal), true
 				}
 				for _, inner := range an.CallsTo(t, func(g *ssa.Function) bool { return g == startFn }) {
-					return an.D().Of(inner.Common().Args[len(inner.Common().Args)-1]), true
+					argVal = inner.Common().Args[len(inner.Common().Args)-1]
+					return an.D().Of(argVal), true
 				}
 			}
 			return "", false
@@ -329,7 +362,16 @@ func c18(c *core.Ctx, r *core.Report) {
 				case fld.Name() == "C" && an.IsNamed(owner, "time", "Timer"):
 					sawTimer = true
 					a, ok := argTo(arms[idx])
-					good := ok && strings.HasPrefix(a, "(") && strings.HasSuffix(a, " + 1)") && strings.Contains(strings.ToLower(a), "index")
+					good := false
+					if bo, isBin := an.Strip(argVal).(*ssa.BinOp); ok && isBin && bo.Op == token.ADD && curFld != nil {
+						x, y := bo.X, bo.Y
+						if _, isK := x.(*ssa.Const); isK {
+							x, y = y, x
+						}
+						k, isK := y.(*ssa.Const)
+						fa, isFA := an.Strip(x).(*ssa.FieldAddr)
+						good = isK && k.Value != nil && k.Int64() == 1 && isFA && an.SameField(an.FieldOfAddr(fa), curFld)
+					}
 					r.Check(good, core.FuncName(f.loop)+"#timer-arm", pos, "next-schedule arm selects "+a, "next-schedule arm does not select current+1 (selects "+a+")")
 				case an.IsNamed(owner, raterunPkg, "Runner") && fld.Type().String() == "chan struct{}" && !an.SameField(fld, f.joinField):
 					sawRestart = true
